@@ -220,7 +220,11 @@ def sym_state(dom, cfg, solver, prior_sym, statepfx="s"):
         r = sym_array(dom, "run" if statepfx == "s" else statepfx + "run", shape)
         aux = (st0.auxiliary[0], r, float(cfg.num_data))
         info["running"] = r
-    state = ProbabilisticSolution(t=t, u=u, solution_full=post, output_scale=st0.output_scale,
+    oscale = st0.output_scale
+    if cfg.calib.startswith("dynamic") and statepfx != "s":
+        oscale = sym_array(dom, statepfx + "os", np.shape(st0.output_scale), unit=True)
+        info["output_scale"] = oscale
+    state = ProbabilisticSolution(t=t, u=u, solution_full=post, output_scale=oscale,
                                   num_steps=st0.num_steps, auxiliary=aux, fun_evals=st0.fun_evals,
                                   prior=prior_sym)
     return state, info
